@@ -8,6 +8,7 @@ import (
 
 	sdk "github.com/cosmos/cosmos-sdk/types"
 
+	"github.com/jackalLabs/canine-chain/v4/wasmbinding"
 	storagetypes "github.com/jackalLabs/canine-chain/v4/x/storage/types"
 
 	"verif/harness/mc"
@@ -17,8 +18,8 @@ import (
 // C07 — plan space accounting matches the files actually held.
 type C07 struct{}
 
-var c07Files = map[string]*sfile{"400": mkFile(seqBytes(9, 4), 1024), "600": mkFile(seqBytes(9, 6), 1024), "max": mkFile(seqBytes(9, 9), 1024)}
-var c07Size = map[string]int64{"400": 400_000_000, "600": 600_000_000, "max": 1<<63 - 1}
+var c07Files = map[string]*sfile{"400": mkFile(seqBytes(9, 4), 1024), "600": mkFile(seqBytes(9, 6), 1024), "max": mkFile(seqBytes(9, 9), 1024), "neg": mkFile(seqBytes(9, 3), 1024)}
+var c07Size = map[string]int64{"400": 400_000_000, "600": 600_000_000, "max": 1<<63 - 1, "neg": -400_000_000}
 var c07Users = []string{"U1", "U2"}
 
 type c07Model struct {
@@ -53,6 +54,8 @@ func (C07) Events(env world.Env, mm mc.Model) []string {
 		}
 		evs = append(evs, "PostOnce:U1:400:1", "Post:U1:max:1") // the largest size stateless validation accepts
 		evs = append(evs, "PostNegExp:U1:400:1")                // Expires = -1 passes stateless validation
+		// the same post made by a contract through the chain's wasm binding (U1 standing in for the contract account)
+		evs = append(evs, "WasmPost:U1:400:1", "WasmPost:U1:neg:1", "WasmPost:U1:max:2")
 	}
 	for _, id := range m.Files {
 		fp := strings.Split(id, "|")
@@ -101,6 +104,26 @@ func c07Snapshot(w *world.World, ctx sdk.Context) c07Snap {
 	return s
 }
 
+// wasmPostFile performs the post the way a contract's custom message does: wasmbinding.PerformPostFile on a branch of the
+// current state, written back only on success (the wasm module discards the branch of a failed or panicking message).
+func wasmPostFile(env world.Env, contract world.Acct, msg *storagetypes.MsgPostFile) (res world.TxResult) {
+	env.Mutate(func(ctx sdk.Context) {
+		cctx, write := ctx.CacheContext()
+		k := env.W().App.StorageKeeper
+		defer func() {
+			if r := recover(); r != nil {
+				res.Err = fmt.Errorf("panic: %v", r)
+			}
+		}()
+		if err := wasmbinding.PerformPostFile(&k, cctx, contract.Addr, msg); err != nil {
+			res.Err = err
+			return
+		}
+		write()
+	})
+	return res
+}
+
 func (C07) Apply(env world.Env, mm mc.Model, ev string) mc.Step {
 	w := env.W()
 	m := mm.(c07Model)
@@ -132,7 +155,7 @@ func (C07) Apply(env world.Env, mm mc.Model, ev string) mc.Step {
 		if env.Deliver(storagetypes.NewMsgBuyStorage(a, a, 30, gbs*1_000_000_000, "ujkl")).OK() {
 			st.Outcome = "ok"
 		}
-	case "Post", "PostOnce", "PostNegExp":
+	case "Post", "PostOnce", "PostNegExp", "WasmPost":
 		u := p[1]
 		f := c07Files[p[2]]
 		mp, _ := strconv.ParseInt(p[3], 10, 64)
@@ -149,9 +172,14 @@ func (C07) Apply(env world.Env, mm mc.Model, ev string) mc.Step {
 		if old, ok := getFile(w, env.Ctx(), f.merkle, w.A(u).Bech, h); ok && old.Expires <= 0 {
 			replaced = old.FileSize * old.MaxProofs
 		}
-		res := env.Deliver(msg)
+		var res world.TxResult
+		if p[0] == "WasmPost" {
+			res = wasmPostFile(env, w.A(u), msg)
+		} else {
+			res = env.Deliver(msg)
+		}
 		m.Posts++
-		if p[0] == "Post" {
+		if p[0] == "Post" || p[0] == "WasmPost" {
 			need := c07Size[p[2]] * mp
 			mayFit := before.hasPlan[u] && before.live[u] && before.used[u]-replaced+need <= before.avail[u]
 			st.Exercised = append(st.Exercised, "plan-paid-post")
@@ -235,6 +263,6 @@ func init() {
 	Props["C07"] = Prop{Level: "model_checking", Run: func(r *mc.Run, tier string) {
 		r.Rules = append(r.Rules, "BFS over buy/upgrade (1 GB, 2 GB) by 2 accounts, plan-paid posts (0.4/0.6 GB x replication 1,2; the same key twice in a block), a pay-once post, delete by owner and non-owner, a prover joining, NextBlock (1 day; reward blocks drop prover-less old files) and a 31-day block (plan expiry); oracle: delta(SpaceUsed) = delta(footprint of the account's live plan-paid files as listed by AllFilesByOwner), bounds, free-space query, refused posts")
 		r.Assumptions = append(r.Assumptions, "at most 4 posts, 5 one-day blocks and one 31-day block per history")
-		r.AddExplore(C07{}, opts(tier, 6, 9, 60, 1200, 150, 2000))
+		r.AddExplore(C07{}, opts(tier, 5, 9, 60, 1200, 150, 2000))
 	}}
 }
